@@ -33,7 +33,7 @@ def main():
             sh("git apply %s" % patch, cwd="/repo")
             try:
                 t0 = time.time()
-                rc, o = sh("./check %s --tier quick" % chk)
+                rc, o = sh("VERIF_EVIDENCE_DIR=/verif/_build/evidence_selftest ./check %s --tier quick" % chk)
             finally:
                 sh("git checkout -- .", cwd="/repo")
             viol = re.findall(r"^VIOLATION .*$", o, re.M)
